@@ -252,8 +252,9 @@ theorem written_laid (C : Compression) (K : Nat) (hK : 1 ≤ K) (bs : Nat) (docs
 
 /-! ### the reader on a laid-out file -/
 
-theorem getBytes_laid (C : Compression) (hrt : ∀ b, C.decomp (C.comp b) = some b) (P : Nat) (hP : 2 ≤ P)
+theorem getBytes_laid_on (C : Compression) (P : Nat) (hP : 2 ≤ P)
     (groups : List (List Bytes)) (cps : List Checkpoint) (data : Bytes)
+    (hrt : ∀ g ∈ groups, C.decomp (C.comp (blockOf g)) = some (blockOf g))
     (hl : Laid C 0 0 groups cps data) (hg : ∀ g ∈ groups, g ≠ [] ∧ Fits g) (hne : groups ≠ [])
     (sf : StoreFile) (hdata : sf.data = data) (hidx : sf.index = finishedLayers P cps) (t : Nat) :
     getBytes C sf t = groups.flatten[t]? := by
@@ -278,7 +279,7 @@ theorem getBytes_laid (C : Compression) (hrt : ∀ b, C.decomp (C.comp b) = some
     have hraw : readBlockRaw C sf c = some (blockOf g) := by
       unfold readBlockRaw
       rw [hdata]
-      simp only [h5, h6, and_self, if_true, h7, hrt]
+      simp only [h5, h6, and_self, if_true, h7, hrt g hgm]
     rw [hraw]
     simp only [Option.bind_some]
     obtain ⟨_, hfit1, hfit2⟩ := hg g hgm
@@ -288,6 +289,13 @@ theorem getBytes_laid (C : Compression) (hrt : ∀ b, C.decomp (C.comp b) = some
     rw [this]
     simp only [Option.bind_none]
     rw [List.getElem?_eq_none (by omega)]
+
+theorem getBytes_laid (C : Compression) (hrt : ∀ b, C.decomp (C.comp b) = some b) (P : Nat) (hP : 2 ≤ P)
+    (groups : List (List Bytes)) (cps : List Checkpoint) (data : Bytes)
+    (hl : Laid C 0 0 groups cps data) (hg : ∀ g ∈ groups, g ≠ [] ∧ Fits g) (hne : groups ≠ [])
+    (sf : StoreFile) (hdata : sf.data = data) (hidx : sf.index = finishedLayers P cps) (t : Nat) :
+    getBytes C sf t = groups.flatten[t]? :=
+  getBytes_laid_on C P hP groups cps data (fun g _ => hrt _) hl hg hne sf hdata hidx t
 
 /-! ### `close` then `open` -/
 
